@@ -257,6 +257,19 @@ func main() {
 			os.Exit(2)
 		}
 	}
+	// The one call that asks the operating system for its interfaces (net.Interfaces has no seam):
+	// in the scratch copy it goes through verifInterfaceOfConn (export_verif.go), which answers for
+	// simulated node addresses and leaves loopback addresses to the real function. If the call is
+	// not found as written the copy is left alone (multicast readers then need a loopback address).
+	if b, err := os.ReadFile(filepath.Join(abs, "client.go")); err == nil {
+		const from, to = "intf, err = interfaceOfConn(c.nconn)", "intf, err = verifInterfaceOfConn(c.nconn)"
+		if strings.Count(string(b), from) == 1 {
+			os.WriteFile(filepath.Join(abs, "client.go"), []byte(strings.Replace(string(b), from, to, 1)), 0o644)
+			fmt.Println("instrument: interface lookup of the multicast client goes through verifInterfaceOfConn")
+		} else {
+			fmt.Println("instrument: interface lookup left alone (call not found as written)")
+		}
+	}
 	rep := map[string]any{"inserted": inserted, "skipped": skipped}
 	if *report != "" {
 		b, _ := json.MarshalIndent(rep, "", " ")
